@@ -19,6 +19,10 @@ RULES = {
     "C06.4": "reads do not depend on a layout field that a restart changes: while the allocator can hand out blocks whose limit differs from the limit recovery re-creates them with "
              "(C06.1), no function on the read / recovery side (Block::read, read_next, batch_read_for_topic, the recovery scan and recount, and what they call outside the writer "
              "and allocator modules) may load Block.limit. A reader that consults the limit answers differently for the same bytes before and after a restart",
+    "C06.5": "recovery visits every unit: the offset of the per-file unit loop is advanced, at every site, by exactly DEFAULT_BLOCK_SIZE - or by the recovered block's used bytes rounded "
+             "UP to whole units through a recognised idiom (div_ceil, next_multiple_of, (x + D - 1) / D * D, each at least one unit). Any other stride expression is reported: a stride "
+             "that overshoots for some fill level (x / D + 1 for an exactly full block) jumps over a unit that holds acknowledged entries, one that undershoots re-reads payload bytes "
+             "as headers",
 }
 
 
@@ -200,6 +204,57 @@ def check_entry_scan_bound(ctx, facts):
     ctx.floor("C06.3", "entry-scan loops in startup_chore", n, 1)
 
 
+def check_scan_stride(ctx, facts, rid="C06.5"):
+    b = facts.body("walrus::Walrus::startup_chore")
+    F = "walrus::Walrus::startup_chore"
+    MAXF = facts.const_val("config::MAX_FILE_SIZE")
+    D = facts.const_val("config::DEFAULT_BLOCK_SIZE")
+    off = None
+    hdr = None
+    for T in all_tests(b):
+        if T.kind == "cmp" and T.op in ("Le", "Lt", "Gt", "Ge"):
+            ea, eb = strip_refs(expr(b, T.a)), strip_refs(expr(b, T.b))
+            if fmtfeat.const_eval(eb) == MAXF and ea[0] == "Add" and fmtfeat.const_eval(ea[2]) == D and strip_refs(ea[1])[0] == "v":
+                off = strip_refs(ea[1])[1]
+                hdr = T
+    if off is None:
+        ctx.anchor_missing(rid, "offset local of the unit loop in startup_chore")
+        return
+    hb, L = b.enclosing_loop(hdr.bb)
+    n = 0
+    for site, kind, node in b.defs.get(off, []):
+        if kind != "assign" or (L is not None and site.bb not in L):
+            continue
+        rv = node["rv"]
+        if rv["k"] not in ("use", "cast"):
+            continue
+        e = strip_refs(expr(b, rv["op"]))
+        if fmtfeat.const_eval(e) is not None:
+            continue   # initialisation
+        n += 1
+        name = b.local_name(off) or "offset"
+        good = None
+        if e[0] == "Add":
+            for base, amt in ((e[1], e[2]), (e[2], e[1])):
+                if show(strip_refs(base)) != name:
+                    continue
+                amt = strip_refs(amt)
+                if fmtfeat.const_eval(amt) == D:
+                    good = "one unit"
+                else:
+                    sh = show(amt, 10)
+                    if re.search(r"next_multiple_of\(.*, %d\)" % D, sh) or re.search(r"Mul\((max\()?div_ceil\(.*, %d\)" % D, sh) \
+                            or re.search(r"Mul\(Div\(Sub\(Add\(.*, %d\), 1\), %d\), %d\)" % (D, D, D), sh) or re.search(r"Mul\(Div\(Add\(.*, %d\), %d\), %d\)" % (D - 1, D, D), sh):
+                        good = "used bytes rounded up to whole units"
+        if good:
+            ctx.ok(rid, F, "unit offset advances by " + good, b.relfile, site.line)
+        else:
+            ctx.violate(rid, F, "recovery-stride", b.relfile, site.line,
+                        "the unit loop advances its offset by %s, which is neither one unit nor a recognised round-up of the block's used bytes to whole units: for some fill level the scan "
+                        "skips a unit that was handed out (its acknowledged entries are gone after the restart) or lands inside a payload" % show(e, 8)[:100])
+    ctx.floor(rid, "advances of the unit loop offset", n, 3)
+
+
 def check_read_side_ignores_limit(ctx, facts):
     if not any(v["rule"] == "C06.1" and "block-limit-differs" in v["what"] for v in ctx.violations):
         ctx.ok("C06.4", "read side", "vacuous: the allocator never hands out a block whose limit differs from recovery's (C06.1 holds)", None, None, trivial=True)
@@ -231,6 +286,7 @@ def run(ctx):
     check_layout(ctx, facts)
     check_scan(ctx, facts)
     check_entry_scan_bound(ctx, facts)
+    check_scan_stride(ctx, facts)
     check_read_side_ignores_limit(ctx, facts)
     ctx.assume("NOT decided: cursor translation across recovery's synthetic block ids, counts after restart, file ordering under clock regression (names come from wall-clock milliseconds)")
     return {
